@@ -13,6 +13,7 @@ import Proofs.UndoFit
 import Proofs.MarkupSuccess
 import Proofs.HistoryUndo
 import Proofs.MarkHistory
+import Props.C01
 namespace PM.C04
 open PM
 
@@ -1727,10 +1728,246 @@ theorem markStep_undo_needs_guard :
   have := (removeMark_restore_iff cxS (.elem 0 [] [] cxKids) doc' doc'' 1 3 cxM1 hn h1 h2).mp e
   rw [hg] at this
   cases this
+/-- the hypotheses of `removeMarkStep_undo` are satisfiable together: with a single `comment` mark on
+    the text, `RemoveMarkStep(1, 3, comment{id:1})` applies and its inverse restores the document -/
+example : ∃ doc', cxS.apply (.removeMark 1 3 cxM1) (.elem 0 [] [] [.elem 1 [] [] [.text [97, 98] [cxM1]]]) = .ok doc' ∧
+    cxS.apply (.addMark 1 3 cxM1) doc' = .ok (.elem 0 [] [] [.elem 1 [] [] [.text [97, 98] [cxM1]]]) := by
+  have hv : cxS.checkNode (.elem 0 [] [] [.elem 1 [] [] [.text [97, 98] [cxM1]]]) = true := by decide
+  have hn : fnorm [Node.elem 1 [] [] [.text [97, 98] [cxM1]]] = true := by
+    simp [fnorm, fnormKids, Node.norm, chainOk]
+  have hb : bmpDoc (.elem 0 [] [] [.elem 1 [] [] [.text [97, 98] [cxM1]]]) = true := by decide
+  obtain ⟨doc', h1⟩ := PM.removeMark_applies cxS cx_loop 0 [] [] _ 1 3 cxM1 hv hn (by omega)
+    (by simp) (alignedAt_of_bmp _ _ hb) (alignedAt_of_bmp _ _ hb)
+  have hal := (bmp_step cxS _ _ doc' (.inl ⟨1, 3, cxM1, rfl⟩) hb h1).2
+  exact ⟨doc', h1, (removeMarkStep_undo cxS cx_loop _ doc' 1 3 cxM1 hv hn h1 (by decide) hal).2⟩
 end NeedsSameType
 
 /-- the hypotheses of `markHistory_undo` on a small instance: the guards are computable -/
 example : flatInline cxS (.elem 0 [] [] cxKids) = true ∧ bmpDoc (.elem 0 [] [] cxKids) = true ∧
     selfExcluding cxS = false ∧ sameTypeFree cxS (.elem 0 [] [] cxKids) 1 3 0 = false := by decide
+
+/-! ### The bundled family: a history over all eight step kinds (work package `wk-histundo`)
+
+`family_history_undo` composes the single-step undo theorems of this file along any replayed history,
+carrying "valid and in normal form" from document to document (`C01.apply_valid`, `apply_norm`).
+What each recorded step has to satisfy besides that is `FamilyGuard` — per step kind, exactly the
+hypotheses of its single-step theorem that the invariant does not supply.  The schema hypotheses
+`compatTransB S` and `TextLoop S` hold of all nine bundled-family schemas (measured per run:
+`coverage.schema_guards` of the evidence). -/
+
+/-- exact undo of a doc-attribute step with the restored document pinned: the document itself
+    (strengthens `docAttr_undo`, whose conclusion leaves the attributes open) -/
+theorem docAttr_undo_exact (S : Schema) (t : TypeId) (a : Attrs) (m : Marks) (kids : List Node)
+    (name value : String) (doc' : Node) (inv : Step)
+    (ha : computeAttrs (S.nodeType t).attrs a = .ok a) (hm : setFrom m = m)
+    (h1 : S.apply (.docAttr name value) (.elem t a m kids) = .ok doc')
+    (hi : S.invert (.docAttr name value) (.elem t a m kids) = .ok inv) :
+    S.apply inv doc' = .ok (.elem t a m kids) := by
+  simp only [Schema.apply] at h1
+  cases hc1 : computeAttrs (S.nodeType t).attrs (a.filter (·.1 != name) ++ [(name, value)]) with
+  | error e => simp [hc1, Except.map] at h1
+  | ok a1 =>
+    simp only [hc1, Except.map, Except.ok.injEq] at h1
+    subst h1
+    simp only [Schema.invert, Node.attrs] at hi
+    cases hf : a.find? (·.1 == name) with
+    | none => simp [hf] at hi
+    | some q =>
+      obtain ⟨nm, v⟩ := q
+      simp only [hf, Except.ok.injEq] at hi
+      subst hi
+      have hlk : lk a name = some v := by simp [lk, hf]
+      have := computeAttrs_undo _ a a1 name value v ha hlk hc1
+      simp only [Schema.apply, this, Except.map, hm]
+
+/-- valid and in normal form -/
+def FamilyInv (S : Schema) (d : Node) : Prop := S.checkNode d = true ∧ fnorm d.kids = true
+
+/-- **what a recorded step has to satisfy, by kind** (`d` the document it was applied to, `d'` its result).
+    Common to several kinds: `∃ inv, S.invert s d = .ok inv` — `Step.invert` does not raise (oracle
+    `invert-raises`); `s.undoAligned d'` — the pair-alignment proviso of the inverse.
+    * replace: the slice is in normal form and a valid payload (`C01.PayloadValid`);
+    * replace-around: slice in normal form and well formed, `insert ≤ slice.size`, ordered gap, valid
+      payload; **`hst`** — when the structure flag is set, the two `content_between` checks of the inverse
+      on `d'` find no content (the inverse inherits the flag; finding C04-structure-inverse; for a slice
+      with only wrapper tokens beside the insertion point it holds: `replaceAround_hst_of_wrappers`,
+      Proofs/UndoStructure.lean); **`gapClean`** — the gap lies between complete children (what `lift`,
+      `wrap`, `set_node_markup` emit; otherwise finding C04-around-text-gap);
+    * add-mark / remove-mark: the exact guard of the naive inverse (`addMarkUndoable` /
+      `removeMarkUndoable`; the planners' steps satisfy it: `planGuard_family`);
+    * attr / doc-attr: every node carries its attributes as `compute_attrs` builds them (`attrsOk`);
+    * node marks: `attrsOk` and the three guards of `nodeMark_undo` (finding C04-node-mark-inverse). -/
+def FamilyGuard (S : Schema) (s : Step) (d d' : Node) : Prop :=
+  match s with
+  | .replace _ _ sl _ =>
+    fnorm sl.content = true ∧ C01.PayloadValid S d s ∧ (∃ inv, S.invert s d = .ok inv) ∧ s.undoAligned d'
+  | .replaceAround f t gf gt sl ins b =>
+    fnorm sl.content = true ∧ sl.wf = true ∧ (ins : Int) ≤ sl.size ∧ (f ≤ gf ∧ gf ≤ gt ∧ gt ≤ t) ∧
+    C01.PayloadValid S d s ∧ (∃ inv, S.invert s d = .ok inv) ∧
+    (b = true → contentBetween d' f (f + ins) = some false ∧
+      contentBetween d' (f + ins + (gt - gf)) (f + sl.size.toNat + (gt - gf)) = some false) ∧
+    (∀ old, d.slice f t = .ok old →
+      gapClean old.content none (gf - f + old.openStart) (gt - f + old.openStart) = true) ∧
+    s.undoAligned d'
+  | .addMark f t m => addMarkUndoable S d f t m = true ∧ s.undoAligned d'
+  | .removeMark f t m => removeMarkUndoable S d f t m = true ∧ s.undoAligned d'
+  | .attr _ _ _ => attrsOk S d = true ∧ (∃ inv, S.invert s d = .ok inv)
+  | .docAttr _ _ => attrsOk S d = true ∧ (∃ inv, S.invert s d = .ok inv)
+  | .addNodeMark pos m =>
+    attrsOk S d = true ∧ (∃ inv, S.invert s d = .ok inv) ∧
+    (∀ n, d.nodeAt pos = .ok (some n) → n.marks.length ≤ (m.addToSet S n.marks).length) ∧
+    (∀ n, d.nodeAt pos = .ok (some n) → ∀ x ∈ n.marks, ∀ y ∈ n.marks, x.ty = y.ty → x = y) ∧
+    (∀ n, d.nodeAt pos = .ok (some n) → ∀ x ∈ n.marks, S.excludes m.ty x.ty = true → S.excludes x.ty m.ty = true)
+  | .removeNodeMark pos _ =>
+    attrsOk S d = true ∧ (∃ inv, S.invert s d = .ok inv) ∧
+    (∀ n, d.nodeAt pos = .ok (some n) → ∀ x ∈ n.marks, ∀ y ∈ n.marks, x.ty = y.ty → x = y)
+
+/-- a step recorded by `add_mark` / `remove_mark` satisfies its `FamilyGuard`, given the same-type
+    guard and the pair-alignment proviso -/
+theorem planGuard_family (S : Schema) (s : Step) (d d' : Node) (hp : PlanGuard S s d d')
+    (hty : s.sameTypeGuard S d) (hal : s.undoAligned d') : FamilyGuard S s d d' := by
+  rcases hp with ⟨a, b, x, rfl, hg⟩ | ⟨a, b, m, rfl, hg⟩
+  · exact ⟨hg hty, hal⟩
+  · exact ⟨hg, hal⟩
+
+/-- node-markup steps keep the normal form -/
+private theorem nodeStep_norm (S : Schema) (d d' n u : Node) (pos : Nat) (attrs : Attrs) (marks : Marks)
+    (hn : fnorm d.kids = true) (hu : S.recreate n attrs marks = .ok u)
+    (hr : S.fromReplace d pos (pos + 1) ⟨[u], 0, if n.isLeaf then 0 else 1⟩ = .ok d') :
+    fnorm d'.kids = true :=
+  fromReplace_norm S d d' pos (pos + 1) _ hn (recreate_spec S n u attrs marks hu).2.1 hr
+
+/-- **one recorded step of any kind is undone exactly under its guard, and the invariant is kept** -/
+theorem family_step (S : Schema) (htr : compatTransB S = true) (hts : TextLoop S) (s : Step) (d d' : Node)
+    (hI : FamilyInv S d) (h : S.apply s d = .ok d') (hg : FamilyGuard S s d d') :
+    StepUndoes S s d d' ∧ FamilyInv S d' := by
+  obtain ⟨hv, hn⟩ := hI
+  cases s with
+  | replace f t sl b =>
+    obtain ⟨hsn, hp, ⟨inv, hi⟩, ha⟩ := hg
+    exact ⟨⟨inv, hi, replace_undo_transitive S d d' f t sl b inv htr hv hn hsn h hi ha⟩,
+      C01.apply_valid S (.replace f t sl b) d d' hv hp h, apply_norm S (.replace f t sl b) d d' hsn hn h⟩
+  | replaceAround f t gf gt sl ins b =>
+    obtain ⟨hsn, hwf, hins, hgo, hp, ⟨inv, hi⟩, hst, hclean, ha1, ha2, ha3, ha4⟩ := hg
+    have hj : sidesCompatibleAround S d f t gf gt sl ins = true := by
+      obtain ⟨gap, inserted, hgap, _, _, hinst, hfr1⟩ := apply_replaceAround_parts S d d' f t gf gt sl ins b h
+      obtain ⟨ty, a, m, K, K', rfl, rfl, hr1⟩ := fromReplace_elem S d d' f t inserted hfr1
+      have := sidesCompatible_of_trans S (compatTrans_of_B S htr) ty a m K K' f t inserted hn hr1
+      simpa [sidesCompatibleAround, hgap, hinst] using this
+    exact ⟨⟨inv, hi, replaceAround_undo_structural S d d' f t gf gt sl ins b inv hv hn hsn hwf hins hgo h hi
+        hst hclean hj ⟨ha1, ha3, ha4, ha2⟩⟩,
+      C01.apply_valid S (.replaceAround f t gf gt sl ins b) d d' hv hp h,
+      apply_norm S (.replaceAround f t gf gt sl ins b) d d' hsn hn h⟩
+  | addMark f t m =>
+    have k := addMark_keepsAll S d d' f t m h
+    exact ⟨addMark_stepUndoes S hts d d' f t m hv hn h hg.1 hg.2, k.valid hts.stable hv, k.norm hn⟩
+  | removeMark f t m =>
+    have k := removeMark_keepsAll S d d' f t m h
+    exact ⟨removeMark_stepUndoes S hts d d' f t m hv hn h hg.1 hg.2, k.valid hts.stable hv, k.norm hn⟩
+  | attr pos name value =>
+    obtain ⟨ha, inv, hi⟩ := hg
+    obtain ⟨n, u, _, hu, hr⟩ := apply_attr_parts S d d' pos name value h
+    exact ⟨⟨inv, hi, attr_undo S d d' pos name value inv hn hv ha h hi⟩,
+      C01.apply_valid S (.attr pos name value) d d' hv trivial h, nodeStep_norm S d d' n u pos _ _ hn hu hr⟩
+  | docAttr name value =>
+    obtain ⟨ha, inv, hi⟩ := hg
+    cases d with
+    | text _ _ => simp [Schema.apply] at h
+    | leaf _ _ _ => simp [Schema.apply] at h
+    | elem t a m kids =>
+      have hca : computeAttrs (S.nodeType t).attrs a = .ok a := by
+        have := attrsOk_compute (n := .elem t a m kids) ha rfl
+        simpa [Node.headTok, Tok.ty, Node.attrs] using this
+      have hv' := hv
+      simp only [checkNode_elem, Bool.and_eq_true] at hv'
+      have hm : setFrom m = m := setFrom_of_sorted m ((canonicalMarks_iff_canonP S m).1 hv'.1.2).sorted
+      refine ⟨⟨inv, hi, docAttr_undo_exact S t a m kids name value d' inv hca hm h hi⟩,
+        C01.apply_valid S (.docAttr name value) _ d' hv trivial h, ?_⟩
+      simp only [Schema.apply] at h
+      cases hc1 : computeAttrs (S.nodeType t).attrs (a.filter (·.1 != name) ++ [(name, value)]) with
+      | error e => simp [hc1, Except.map] at h
+      | ok a1 =>
+        simp only [hc1, Except.map, Except.ok.injEq] at h
+        subst h
+        exact hn
+  | addNodeMark pos m =>
+    obtain ⟨ha, ⟨inv, hi⟩, hdis, hty, hsym⟩ := hg
+    obtain ⟨n, u, _, hu, hr⟩ := apply_addNodeMark_parts S d d' pos m h
+    exact ⟨⟨inv, hi, nodeMark_undo S d d' pos m inv true hn hv ha h hi (fun n hn _ => hdis n hn) hty
+        (fun n hn _ => hsym n hn)⟩,
+      C01.apply_valid S (.addNodeMark pos m) d d' hv trivial h, nodeStep_norm S d d' n u pos _ _ hn hu hr⟩
+  | removeNodeMark pos m =>
+    obtain ⟨ha, ⟨inv, hi⟩, hty⟩ := hg
+    obtain ⟨n, u, _, hu, hr⟩ := apply_removeNodeMark_parts S d d' pos m h
+    exact ⟨⟨inv, hi, nodeMark_undo S d d' pos m inv false hn hv ha h hi (fun _ _ hc => by cases hc) hty
+        (fun _ _ hc => by cases hc)⟩,
+      C01.apply_valid S (.removeNodeMark pos m) d d' hv trivial h, nodeStep_norm S d d' n u pos _ _ hn hu hr⟩
+
+/-- **the history clause for the bundled family**: schema with transitive `compatible_content`
+    (`compatTransB`) and `TextLoop`; `doc` valid and in normal form; any replayed history
+    (`replay S doc steps = some (docs, fin)` — every history built through the transform API is one,
+    `history_inv`) whose recorded steps satisfy `FamilyGuard`.  Then the inverted steps applied in
+    reverse order to the final document restore `doc`, and the final document is again valid and in
+    normal form. -/
+theorem family_history_undo (S : Schema) (htr : compatTransB S = true) (hts : TextLoop S)
+    (doc : Node) (steps : List Step) (docs : List Node) (fin : Node)
+    (hd : S.checkNode doc = true) (hn : fnorm doc.kids = true)
+    (hrep : replay S doc steps = some (docs, fin))
+    (hg : HistAll (FamilyGuard S) (steps.zip docs) fin) :
+    S.unwind (steps.zip docs) fin = .ok doc ∧ FamilyInv S fin := by
+  obtain ⟨hlen, h0, hk⟩ := replay_get S steps doc docs fin hrep
+  have hrc := replayChain_zip S steps docs fin hlen hk
+  have hstart : histNext (steps.zip docs) fin = doc := by
+    have := histNext_zip_drop steps docs fin 0 hlen
+    simp only [List.drop_zero] at this
+    rw [this, h0]
+  obtain ⟨hc, hfin⟩ := chain_of_invariant S (FamilyInv S) (FamilyGuard S) (family_step S htr hts)
+    (steps.zip docs) fin (by rw [hstart]; exact ⟨hd, hn⟩) hrc hg
+  exact ⟨by rw [unwind_of_chain S _ fin hc, hstart], hfin⟩
+
+/-- the same over `history_inv`'s structure: any finite sequence of attempted steps -/
+theorem family_history_undo_run (S : Schema) (htr : compatTransB S = true) (hts : TextLoop S)
+    (doc : Node) (sts : List Step) (hd : S.checkNode doc = true) (hn : fnorm doc.kids = true) :
+    let tr := (Tr.init doc).run S sts
+    HistAll (FamilyGuard S) tr.hist tr.doc → tr.undo S = .ok doc := by
+  intro tr hg
+  obtain ⟨_, _, _, _, hrep⟩ := history_inv S doc sts
+  exact (family_history_undo S htr hts doc tr.steps tr.docs tr.doc hd hn hrep hg).1
+
+/-! Non-vacuity of `family_history_undo`: the one-step history "replace 2 … 3 by `x`" on
+    `doc(p("ab"), p("c"))` (`tiny_fwd`, `tiny_inv` above) meets every hypothesis. -/
+section FamilyExample
+private theorem tinyS_loop : TextLoop tinyS := by
+  intro t q q1 h
+  match t, q with
+  | 0, 0 => simp [Schema.dfa, Schema.nodeType, tinyS, Dfa.matchType, Dfa.edgesOf] at h
+  | 1, 0 =>
+    have : q1 = 0 := by
+      simp [Schema.dfa, Schema.nodeType, tinyS, Dfa.matchType, Dfa.edgesOf] at h; omega
+    subst this; exact h
+  | 2, 0 => simp [Schema.dfa, Schema.nodeType, tinyS, Dfa.matchType, Dfa.edgesOf] at h
+  | 0, q + 1 => simp [Schema.dfa, Schema.nodeType, tinyS, Dfa.matchType, Dfa.edgesOf] at h
+  | 1, q + 1 => simp [Schema.dfa, Schema.nodeType, tinyS, Dfa.matchType, Dfa.edgesOf] at h
+  | 2, q + 1 => simp [Schema.dfa, Schema.nodeType, tinyS, Dfa.matchType, Dfa.edgesOf] at h
+  | t + 3, q =>
+    have : (tinyS.dfa (t + 3)) = #[] := by
+      simp [Schema.dfa, Schema.nodeType, tinyS]
+      rfl
+    rw [this] at h
+    simp [Dfa.matchType, Dfa.edgesOf] at h
+
+example : tinyS.unwind ([Step.replace 2 3 tinySl false].zip [tinyDoc]) tinyDoc' = .ok tinyDoc := by
+  refine (family_history_undo tinyS (by decide) tinyS_loop tinyDoc [.replace 2 3 tinySl false] [tinyDoc] tinyDoc'
+    (by decide) ?_ ?_ ?_).1
+  · simp [tinyDoc, Node.kids, fnorm, fnormKids, Node.norm, chainOk, adjOk]
+  · simp [replay, tiny_fwd]
+  · refine ⟨⟨?_, ?_, ⟨_, tiny_inv⟩, ?_⟩, trivial⟩
+    · simp [tinySl, fnorm, fnormKids, Node.norm, chainOk]
+    · show openValid tinyS tinySl.openStart tinySl.openEnd tinySl.content = true
+      simp [tinySl, openValid, rightOpenValid, Schema.checkKids, Schema.checkNode]
+      decide
+    · simp [Step.undoAligned, histNext, tinyDoc', Node.kids, tinySl, alignedAt, splitOk, isHigh, isLow,
+        Slice.size, fsize, Node.size]
+end FamilyExample
 
 end PM.C04
